@@ -203,6 +203,12 @@ Next ==
     \/ DoConstruct \/ DoBeginSolve \/ DoSolveStep \/ DoEndSolve \/ DoBFRun
 Spec == Init /\ [][Next]_vars
 
+(* Termination (C02: "the solver terminates"): under weak fairness of the solver's own steps every run that  *)
+(* has begun ends, and the number of underlying solves never exceeds what the criteria list needs.           *)
+FairSpec == Spec /\ WF_vars(DoSolveStep) /\ WF_vars(DoEndSolve)
+RunTerminates == [](phase = "solving" => <>(phase = "solved"))
+SolvesBounded == phase \in {"solving", "solved"} /\ ~opts.bf => k <= NSolves(inst, crits)
+
 -----------------------------------------------------------------------------
 (* M1 obligations on the families *)
 Text == Render(fc, StyleOf(style), block)
